@@ -440,6 +440,7 @@ r is Ok ==> forall|w: HeapW| #[trigger] heap_ok(old(self).0@.bytes, old(self).0.
     let t = w_write(w, old(self).0@.bytes.len(), is_new, piece.offset.val as nat, key_need(piece.key.bytes(), piece.value_offset.val as nat, piece.bucket_next_offset.val as nat),
         SlotC::Key(piece.key.bytes(), piece.value_offset.val as nat, piece.bucket_next_offset.val as nat));
     heap_ok(final(self).0@.bytes, old(self).0.piece_mgr, t.0) && r->Ok_0.offset.val == t.1 && r->Ok_0.size.val == t.2
+        && (!is_new && key_need(piece.key.bytes(), piece.value_offset.val as nat, piece.bucket_next_offset.val as nat) > w.slots[piece.offset.val as nat].size ==> exists|ba: Seq<u8>| #[trigger] heap_ok(ba, old(self).0.piece_mgr, w_push(w, piece.offset.val as nat)) && ba.len() == old(self).0@.bytes.len())
 }),
 r is Ok ==> final(self).0@.unflushed && final(self).0@.unsynced
 @entry
@@ -513,6 +514,7 @@ proof {
         assert forall|w: HeapW| #[trigger] heap_ok(b0, pm, w) && key_pre(b0, pm, w, is_new, off) implies ({
             let t = w_write(w, b0.len(), is_new, off, need, cont);
             heap_ok(b1, pm, t.0) && rp.offset.val == t.1 && rp.size.val == t.2
+                && (!is_new && need > w.slots[off].size ==> exists|ba2: Seq<u8>| #[trigger] heap_ok(ba2, pm, w_push(w, off)) && ba2.len() == b0.len())
         }) by {
             if !is_new {
                 assert(slot_ok(b0, off, w.slots[off]));
